@@ -13,7 +13,10 @@ RULE = ("seeded epsilon-NFA/NFA/DFA descriptors (<=5 states, <=3 symbols, <=9 tr
 
 
 def gen(rng, tier):
-    c = G.gen_fa(rng)
+    if tier == "thorough" and rng.chance(0.25):
+        c = G.gen_fa(rng, max_states=7, max_trans=13)       # larger shapes in the deep tier
+    else:
+        c = G.gen_fa(rng)
     if c["kind"] in ("nfa", "dfa") and len(c["states"]) >= 1 and rng.chance(0.15):
         # an epsilon move handed to an epsilon-free class under its string spelling: it must be refused
         # (InvalidEpsilonTransition) or, if taken, honoured by accepts()
